@@ -813,6 +813,18 @@ func constructedNonNil(c *core.Ctx, info *types.Info, se *ast.SelectorExpr) bool
 	for _, p := range c.ModulePkgs() {
 		for _, f := range p.Syntax {
 			ast.Inspect(f, func(n ast.Node) bool {
+				if as, ok := n.(*ast.AssignStmt); ok {
+					for i, l := range as.Lhs {
+						if lse, ok := ast.Unparen(l).(*ast.SelectorExpr); ok {
+							if ls, ok := p.TypesInfo.Selections[lse]; ok && ls.Obj() == fld {
+								if len(as.Lhs) != len(as.Rhs) || !nonNilValue(p.TypesInfo, as.Rhs[i]) {
+									lits += 1000 // assigned something that may be nil
+								}
+							}
+						}
+					}
+					return true
+				}
 				cl, ok := n.(*ast.CompositeLit)
 				if !ok {
 					return true
@@ -821,11 +833,13 @@ func constructedNonNil(c *core.Ctx, info *types.Info, se *ast.SelectorExpr) bool
 					return true
 				}
 				lits++
-				for _, el := range cl.Elts {
+				for i, el := range cl.Elts {
 					if kv, ok := el.(*ast.KeyValueExpr); ok {
 						if id, ok := kv.Key.(*ast.Ident); ok && id.Name == fld.Name() && nonNilValue(p.TypesInfo, kv.Value) {
 							good++
 						}
+					} else if st, ok := nt.Underlying().(*types.Struct); ok && i < st.NumFields() && st.Field(i) == fld && nonNilValue(p.TypesInfo, el) {
+						good++ // positional literal
 					}
 				}
 				return true
@@ -977,7 +991,64 @@ func (na *nilAnalyzer) finderFact(info *types.Info, d *ast.FuncDecl, se *ast.Sel
 		return ""
 	}
 	f := core.Callee(info, call)
-	if f == nil || !core.InModule(f) {
+	if f == nil {
+		// a finder closure bound once to a local, searching the captured slice
+		if fid, ok := ast.Unparen(call.Fun).(*ast.Ident); ok {
+			if fl, ok := ast.Unparen(singleDefRHS(info, d.Body, fid)).(*ast.FuncLit); ok && fl.Type.Results != nil && len(fl.Type.Results.List) == 1 {
+				sliceKey := exprKey(info, ix.X)
+				if sliceKey == "" || !nonNegativeAt(info, d.Body, kobj, use) {
+					return ""
+				}
+				good, rets := true, 0
+				ast.Inspect(fl.Body, func(n ast.Node) bool {
+					if inner, isLit := n.(*ast.FuncLit); isLit && inner != fl {
+						good = false
+						return false
+					}
+					ret, ok := n.(*ast.ReturnStmt)
+					if !ok {
+						return true
+					}
+					rets++
+					if len(ret.Results) != 1 {
+						good = false
+						return true
+					}
+					if tv, ok := info.Types[ret.Results[0]]; ok && tv.Value != nil {
+						if v, exact := constant.Int64Val(tv.Value); !exact || v >= 0 {
+							good = false
+						}
+						return true
+					}
+					rid, ok := ast.Unparen(ret.Results[0]).(*ast.Ident)
+					if !ok {
+						good = false
+						return true
+					}
+					want := fmt.Sprintf("%s[%s].%s", sliceKey, rid.Name, se.Sel.Name)
+					alt := ""
+					if sk, vk := rangeValueAlias(info, fl.Body, ret, rid); sk == sliceKey && vk != "" {
+						alt = vk + "." + se.Sel.Name // `for i, v := range S`: v is S[i]
+					}
+					has := false
+					for _, ft := range na.factsAt(info, fl.Body, ret) {
+						if ft.key == want || (alt != "" && ft.key == alt) {
+							has = true
+						}
+					}
+					if !has {
+						good = false
+					}
+					return true
+				})
+				if good && rets > 0 {
+					return fmt.Sprintf("the index comes from the local finder %s, which returns only indexes whose element has the field, or a negative value that is excluded here", fid.Name)
+				}
+			}
+		}
+		return ""
+	}
+	if !core.InModule(f) {
 		return ""
 	}
 	fd := na.c.Decl(f.Origin())
@@ -1035,9 +1106,13 @@ func (na *nilAnalyzer) finderFact(info *types.Info, d *ast.FuncDecl, se *ast.Sel
 			return true
 		}
 		want := fmt.Sprintf("%s@%d[%s].%s", params[pi].Name(), params[pi].Pos(), rid.Name, se.Sel.Name)
+		alt := ""
+		if sk, vk := rangeValueAlias(finfo, fd.Body, ret, rid); sk == fmt.Sprintf("%s@%d", params[pi].Name(), params[pi].Pos()) && vk != "" {
+			alt = vk + "." + se.Sel.Name
+		}
 		has := false
 		for _, ft := range na.factsAt(finfo, fd.Body, ret) {
-			if ft.key == want {
+			if ft.key == want || (alt != "" && ft.key == alt) {
 				has = true
 			}
 		}
@@ -1145,8 +1220,35 @@ func nonNegativeAt(info *types.Info, body *ast.BlockStmt, k types.Object, use as
 				}
 			case *ast.SwitchStmt:
 				if contains {
+					// a tagless switch tries its cases in order: inside a clause its own condition is true and every
+					// earlier one was false
+					earlierFalse := false
 					for _, cl := range s.Body.List {
-						walk(cl.(*ast.CaseClause).Body)
+						cc := cl.(*ast.CaseClause)
+						inClause := cc.Pos() <= use.Pos() && use.End() <= cc.End()
+						if s.Tag == nil && len(cc.List) == 1 {
+							t, f := implies(cc.List[0])
+							if inClause && (t || earlierFalse) {
+								inBody := false
+								for _, b := range cc.Body {
+									if b.Pos() <= use.Pos() && use.End() <= b.End() {
+										inBody = true
+									}
+								}
+								if inBody || earlierFalse && !(cc.List[0].Pos() <= use.Pos() && use.End() <= cc.List[0].End()) {
+									found = true
+								}
+								if earlierFalse {
+									found = true
+								}
+							}
+							if f {
+								earlierFalse = true
+							}
+						} else if s.Tag == nil && cc.List != nil {
+							// several conditions in one clause: nothing learnt for the later ones
+						}
+						walk(cc.Body)
 					}
 				}
 			case *ast.TypeSwitchStmt:
@@ -1335,4 +1437,45 @@ func validatedDimensionsAt(info *types.Info, root ast.Node, sel ast.Expr, e ast.
 		return true
 	})
 	return found
+}
+
+// rangeValueAlias: n stands inside `for k, v := range S` of body with k the identifier rid and neither k nor v assigned
+// in the loop: the keys of S and of v (v is S[k] there).
+func rangeValueAlias(info *types.Info, body ast.Node, n ast.Node, rid *ast.Ident) (string, string) {
+	var rs *ast.RangeStmt
+	ast.Inspect(body, func(m ast.Node) bool {
+		if r, ok := m.(*ast.RangeStmt); ok && r.Body.Pos() <= n.Pos() && n.End() <= r.Body.End() {
+			if k, ok := r.Key.(*ast.Ident); ok && info.ObjectOf(k) == info.ObjectOf(rid) {
+				rs = r
+			}
+		}
+		return true
+	})
+	if rs == nil {
+		return "", ""
+	}
+	v, ok := rs.Value.(*ast.Ident)
+	if !ok || v.Name == "_" {
+		return "", ""
+	}
+	assigned := false
+	ast.Inspect(rs.Body, func(m ast.Node) bool {
+		switch x := m.(type) {
+		case *ast.AssignStmt:
+			for _, l := range x.Lhs {
+				if o := identObj(info, l); o != nil && (o == info.ObjectOf(v) || o == info.ObjectOf(rid)) {
+					assigned = true
+				}
+			}
+		case *ast.IncDecStmt:
+			if o := identObj(info, x.X); o != nil && o == info.ObjectOf(rid) {
+				assigned = true
+			}
+		}
+		return true
+	})
+	if assigned {
+		return "", ""
+	}
+	return exprKey(info, rs.X), exprKey(info, v)
 }
